@@ -335,22 +335,47 @@ impl Check for FlowFunding {
                     let fa = f.flow_asset.info.clone();
                     let amount = amount.u128();
                     let provided = if *short { amount - 1 } else { amount };
-                    let coins = match &fa {
+                    // one expansion in eight names (and pays in) the OTHER reward asset: it must not be
+                    // accepted as funding of this flow
+                    let wrong_asset = sel & 0xE00 == 0xE00;
+                    let named = if wrong_asset { iw.flow_assets.iter().find(|a| **a != fa).cloned().unwrap_or(fa.clone()) } else { fa.clone() };
+                    let coins = match &named {
                         AssetInfo::NativeToken { denom } => if provided > 0 { vec![coin(provided, denom)] } else { vec![] },
                         AssetInfo::Token { .. } => {
-                            iw.set_allowance(&who, &fa, provided);
+                            iw.set_allowance(&who, &named, provided);
                             vec![]
                         }
                     };
-                    let e = end_plus.map(|p| end_of(&f) + p as u64);
+                    // one new end in eight lies BEFORE the flow's current end (a contraction)
+                    let e = end_plus.map(|p| if sel & 0x7000 == 0x7000 { end_of(&f).saturating_sub(p as u64 % 20) } else { end_of(&f) + p as u64 });
                     let inc_b = bal(&iw, &fa, &iw.incentive);
+                    if wrong_asset && named != fa {
+                        rec.class("expand_attempt_naming_another_asset");
+                        let funded_b = funded_of(&f);
+                        let r = iw.exec_inc(
+                            &who,
+                            &inc::ExecuteMsg::ExpandFlow { flow_identifier: ident(&f, *by_label, rec), end_epoch: e, flow_asset: asset(&named, amount) },
+                            &coins,
+                        );
+                        if r.is_ok() {
+                            let after = iw.flows_raw();
+                            let funded_a = after.iter().find(|x| x.flow_id == f.flow_id).map(funded_of).unwrap_or(funded_b);
+                            let received = bal(&iw, &fa, &iw.incentive) - inc_b;
+                            ensure!(
+                                funded_a.saturating_sub(funded_b) == received,
+                                "step {step}: an expansion naming {named} was accepted for flow {} of {fa}: funded {funded_b} -> {funded_a} but the contract received {received} of the flow's asset",
+                                f.flow_id
+                            );
+                        }
+                        continue;
+                    }
                     let was_long = end_of(&f).saturating_sub(f.start_epoch) > 180;
                     let r = iw.exec_inc(
                         &who,
                         &inc::ExecuteMsg::ExpandFlow {
                             flow_identifier: ident(&f, *by_label, rec),
                             end_epoch: e,
-                            flow_asset: asset(&fa, amount),
+                            flow_asset: asset(&named, amount),
                         },
                         &coins,
                     );
